@@ -325,7 +325,7 @@ impl RawExporter {
 //@   sub R6 /let mut bot_assns = vec!\[vec!\[\]; layout\.metals\];/ => let mut bot_assns: Vec<Vec<AssignKey>> = vp_vec_of_empty(layout.metals);
 //@   sub R6 /let mut top_assns = vec!\[vec!\[\]; layout\.metals\];/ => let mut top_assns: Vec<Vec<AssignKey>> = vp_vec_of_empty(layout.metals);
 //@   sub R5 /let mut assignments = SlotMap::with_key\(\);/ => let mut assignments = AssignMap::with_key();
-//@   sub R5 /cuts\[cut\.track\.layer\]\.push\(&cut\);/ => cuts[cut.track.layer].push(cut);
+//@   sub R5 /cuts\[(cut\.\w+\.layer)\]\.push\(&cut\);/ => cuts[\1].push(cut);
 //@   spec
 //|     requires layout_in_range(*layout),
 //|     ensures r is Ok ==> ({
